@@ -125,7 +125,16 @@ pub struct Upload(pub usize);
 impl Upload {
     /// Get the upload value.
     pub fn value(&self, ctx: &Context<'_>) -> std::io::Result<UploadValue> {
-        ctx.query_env.uploads[self.0].try_clone()
+        ctx.query_env
+            .uploads
+            .get(self.0)
+            .ok_or_else(|| {
+                std::io::Error::new(
+                    std::io::ErrorKind::NotFound,
+                    format!("no file was uploaded at index {}", self.0),
+                )
+            })?
+            .try_clone()
     }
 }
 
@@ -164,9 +173,10 @@ impl InputType for Upload {
         const PREFIX: &str = "#__graphql_file__:";
         let value = value.unwrap_or_default();
         if let Value::String(s) = &value
-            && let Some(filename) = s.strip_prefix(PREFIX)
+            && let Some(index) = s.strip_prefix(PREFIX)
+            && let Ok(index) = index.parse::<usize>()
         {
-            return Ok(Upload(filename.parse::<usize>().unwrap()));
+            return Ok(Upload(index));
         }
         Err(InputValueError::expected_type(value))
     }
@@ -177,5 +187,21 @@ impl InputType for Upload {
 
     fn as_raw_value(&self) -> Option<&Self::RawValueType> {
         Some(self)
+    }
+}
+
+#[cfg(test)]
+mod tests {
+    use super::*;
+
+    #[test]
+    fn forged_marker_is_an_input_error() {
+        let parse = |s: &str| Upload::parse(Some(Value::String(s.to_string()))).ok();
+        assert_eq!(parse("#__graphql_file__:2"), Some(Upload(2)));
+        assert_eq!(parse("#__graphql_file__:x"), None);
+        assert_eq!(parse("#__graphql_file__:"), None);
+        assert_eq!(parse("#__graphql_file__:-1"), None);
+        assert_eq!(parse("#__graphql_file__:99999999999999999999999"), None);
+        assert_eq!(parse("file"), None);
     }
 }
